@@ -11,6 +11,7 @@ package main
 
 import (
 	"go/ast"
+	"go/types"
 	"strings"
 )
 
@@ -21,7 +22,12 @@ func init() {
 	trUnits = append(trUnits,
 		&trUnit{pkg: "cmd/importer/swisscard2", mod: "ImportSwisscard2", funcs: []string{"parser.readBooking"},
 			agree: map[string]string{"parser.readBooking": "ImportSwisscard2"}},
+		&trUnit{pkg: "cmd/importer/supercard", mod: "ImportSupercard",
+			funcs: []string{"parser.parseCurrency", "parser.parseWords", "parser.parseDate", "parser.parseAmount", "parser.parseBooking", "parser.readLine"},
+			agree: map[string]string{"parser.parseCurrency": "ImportSupercard", "parser.parseWords": "ImportSupercard", "parser.parseDate": "ImportSupercard",
+				"parser.parseAmount": "ImportSupercard", "parser.parseBooking": "ImportSupercard", "parser.readLine": "ImportSupercard"}},
 	)
+	trRegexpPrelude[`\s+`] = "Regexp.replaceAllWs" // GoSem/ImportStr.lean
 	trStubEnsure("encoding/csv", "type Reader struct", "type Reader struct{ _ int }")
 	trStubEnsure("encoding/csv", "func (r *Reader) Read(", "func (r *Reader) Read() (record []string, err error)")
 	trExtStd["(*encoding/csv.Reader).Read"] = true
@@ -52,8 +58,64 @@ func trTimeLayout(c *trCtx, call *ast.CallExpr) string {
 }
 
 func trImportImports(text string) string {
+	res := ""
 	if strings.Contains(text, "Time.ParseDMYdot") {
-		return "import Knut.GoSem.ParseLayout\n"
+		res += "import Knut.GoSem.ParseLayout\n"
 	}
-	return ""
+	if strings.Contains(text, "Regexp.replaceAllWs") {
+		res += "import Knut.GoSem.ImportStr\n"
+	}
+	return res
+}
+
+// trImportUnits: the importer units (hooks below apply only there)
+var trImportUnits = map[string]bool{"ImportSwisscard2": true, "ImportSupercard": true}
+
+func (c *trCtx) importMode() bool {
+	return c != nil && c.fn != nil && c.fn.unit != nil && trImportUnits[c.fn.unit.mod]
+}
+
+// importReturnCall (hook of the return statement): `return f(…)` for a call with exactly the results of the function
+// (`return time.Parse("02.01.2006", r[i])` in parseDate): the value of the call is returned as it is
+func (c *trCtx) importReturnCall(x *ast.ReturnStmt) (trLines, bool) {
+	if !c.importMode() || len(x.Results) != 1 || c.nresults < 2 {
+		return nil, false
+	}
+	call, ok := trUnparen(x.Results[0]).(*ast.CallExpr)
+	if !ok {
+		return nil, false
+	}
+	tup, ok := c.typeOf(call).(*types.Tuple)
+	if !ok || tup.Len() != c.nresults {
+		return nil, false
+	}
+	for i := 0; i < tup.Len(); i++ {
+		if !types.Identical(tup.At(i).Type(), c.resultTypes[i]) {
+			trFail(x.Pos(), "return of a call whose result %d has another type than the result of the function is outside the subset", i)
+		}
+	}
+	if len(c.fn.mutObjs) > 0 || c.statePack != nil {
+		return nil, false
+	}
+	v := c.expr(call)
+	pre := c.takePre()
+	return trWrapPre(pre, c.retRaw(v, x.Pos())), true
+}
+
+// importCasePre (hook of the switch statement): a TAGLESS switch whose case expressions can panic (`case len(r[fieldGutschrift]) > 0:`
+// in parseAmount): Go evaluates the expressions of a case when the case is reached, top to bottom; the effectful subterms of a
+// case are bound in front of the if/else chain of THAT case (inside the else branch of the cases before it). One expression per case
+// only (`case a, b:` would evaluate b only when a is false).
+func (c *trCtx) importCasePre(x *ast.SwitchStmt, cc *ast.CaseClause) bool {
+	return c.importMode() && x.Tag == nil && len(cc.List) == 1
+}
+
+// importShadowsType (hook of local): a local variable with the name of a TYPE of its own package (`field field` in supercard's
+// parseAmount) would capture the type name in the `let`s that follow it: it gets a suffix
+func (c *trCtx) importShadowsType(obj types.Object) bool {
+	if !c.importMode() || obj.Pkg() == nil {
+		return false
+	}
+	_, isType := obj.Pkg().Scope().Lookup(obj.Name()).(*types.TypeName)
+	return isType
 }
